@@ -1,6 +1,6 @@
 """C16 — file names and response files reach commands intact (DESIGN 5.16)."""
 from facts import AnalysisBroken
-from model import (path_value, dstr, strip, fact_holds, mentions_field, mentions_call, mentions_var,
+from model import (norm_cond, path_value, dstr, strip, fact_holds, mentions_field, mentions_call, mentions_var,
                    mentions_enum, const_value, walk, ret_value_class)
 from rules import (deep_resolve, guarded, calls_to, field_writes, who_may_call, full_range, loops_over,
                    every_iteration_passes, basename, origins, is_var, is_enum, lastname,
@@ -36,6 +36,12 @@ def run(ctx):
         f = prog.fn(name)
         ok = any(e.get('name') == 'EdgeEnv::LookupVariable' and ('"%s"' % key) in dstr(deep_resolve(f, e.get('args'))) for e in f.events('call'))
         ctx.check('C16.W1', ok, name, 'unescaped-accessor:key', f.loc, '%s looks up "%s"' % (name, key))
+        # ... and hands the evaluated text on as it is: the file ninja writes / reads / removes is the one the rule names
+        # and the command opens (no canonicalisation or other rewriting of a path that is not a graph node)
+        other = sorted({lastname(e.get('name') or '').split('<')[0] for e in f.events('call')} -
+                       {'EdgeEnv', 'LookupVariable', 'StringPiece', 'basic_string', 'operator=', '~EdgeEnv', '~basic_string'})
+        ctx.check('C16.W1', not other, name, 'unescaped-accessor:post-processing', f.loc,
+                  '%s returns the looked-up value unchanged (other calls: %s)' % (name, other))
     ec = prog.fn('Edge::EvaluateCommand')
     rets = list(ec.events('ret'))
     def from_command(r):
@@ -187,6 +193,47 @@ def run(ctx):
         ok = fact_holds(facts, lambda a: mentions_field(a, 'BuildResult::CommandCompleted::status') and mentions_enum(a, 'ExitSuccess'), True)
         ctx.check('C16.O1', ok, fc.name, 'rspfile-remove:on-failure', fc.where(e), 'the response file is kept when the command fails')
         guarded(ctx, 'C16.O1', fc, e, lambda a: 'g_keep_rsp' in dstr(a), False, 'and kept under -d keeprsp', construct='rspfile-remove:keeprsp')
+    # ... and only under it: the debug switches that keep scratch files are set by their own -d names
+    de = prog.fn('DebugEnable')
+    def is_flag_test(a, flag):
+        return ('"%s"' % flag) in dstr(a) and 'operator==' in dstr(a)
+    for gname, flag in (('g_keep_rsp', 'keeprsp'), ('g_keep_depfile', 'keepdepfile')):
+        nsites = 0
+        for e in de.stores():
+            l = strip(e.get('l'))
+            if not (isinstance(l, dict) and l.get('k') == 'var'):
+                continue
+            if l['n'] == gname:
+                nsites += 1
+                guarded(ctx, 'C16.O1', de, e, lambda a, flag=flag: is_flag_test(a, flag), True,
+                        '%s is set only for -d %s' % (gname, flag), construct='debug-flag:%s:wrong-name' % gname)
+            elif l.get('vk') == 'local' and not e.get('from_decl'):
+                # a store through a local reference `bool& keep = c ? g_a : g_b;`
+                inits = [d.get('init') for d in de.events('decl') if d['n'] == l['n'] and '&' in (d.get('ty') or '')]
+                i0 = strip(inits[0]) if len(inits) == 1 and inits[0] is not None else None
+                if isinstance(i0, dict) and i0.get('k') == 'cond':
+                    for arm, pol in ((i0['t'], True), (i0['f'], False)):
+                        sa = strip(arm)
+                        if isinstance(sa, dict) and sa.get('k') == 'var' and sa.get('n') == gname:
+                            nsites += 1
+                            at, ap = norm_cond(prog, i0['c'])
+                            want = ap if pol else (not ap)          # truth of the atom that selects this arm
+
+                            def bad_path(ev, facts, at=at, want=want, flag=flag):
+                                if (dstr(at), not want) in facts:
+                                    return False                    # the other arm is chosen on this path
+                                sel = facts | {(dstr(at), want)}
+                                return not any(k.__class__ is str and p2 is True and ('"%s"' % flag) in k and 'operator==' in k and '||' not in k
+                                               for k, p2 in sel)
+                            r = de.find_path(None, lambda x: x is e, from_succ=de.entry, hit_ok=bad_path)
+                            ok = r is None
+                            ctx.check('C16.O1', ok, de.name, 'debug-flag:%s:wrong-name' % gname, de.where(e),
+                                      '%s is set (through `%s`) only for -d %s' % (gname, l['n'], flag))
+        ctx.check('C16.O1', nsites >= 1, de.name, 'debug-flag:%s:never-set' % gname, de.loc, '-d %s sets %s' % (flag, gname))
+    for gname in ('g_keep_rsp', 'g_keep_depfile'):
+        others = [(f2.name, e2) for f2 in prog.functions.values() if f2.name != 'DebugEnable' and not f2.file.startswith('third_party')
+                  for e2 in f2.stores() if isinstance(strip(e2.get('l')), dict) and strip(e2['l']).get('k') == 'var' and strip(e2['l'])['n'] == gname]
+        ctx.check('C16.O1', not others, gname, 'debug-flag:%s:other-writers' % gname, 'src/debug_flags.cc', 'only DebugEnable sets %s: %s' % (gname, [n for n, e in others]))
     se = prog.fn('Builder::StartEdge')
     wf = [e for e in se.calls('DiskInterface::WriteFile') if any(mentions_call(o, 'Edge::GetUnescapedRspfile') for o in origins(se, e['args'][0]))]
     sc2 = list(se.calls('CommandRunner::StartCommand'))
